@@ -7,6 +7,7 @@ pub mod c01;
 pub mod c02;
 pub mod c04;
 pub mod c05;
+pub mod c06;
 pub mod c07;
 pub mod c08;
 pub mod c10;
@@ -26,6 +27,7 @@ pub fn run(prop: &str, report: &Report) -> i32 {
         "C02" => c02::run(report),
         "C04" => c04::run(report),
         "C05" => c05::run(report),
+        "C06" => c06::run(report),
         "C07" => c07::run(report),
         "C08" => c08::run(report),
         "C10" => c10::run(report),
@@ -47,6 +49,7 @@ pub fn replay(f: &Failure) -> i32 {
         "c02" => crate::core::replay_case(f, c02::case),
         "c04" => crate::core::replay_case(f, c04::case),
         "c05" => crate::core::replay_case(f, c05::case),
+        "c06" => crate::core::replay_case(f, c06::case),
         "c07" => crate::core::replay_case(f, c07::case),
         "c08" => crate::core::replay_case(f, c08::case),
         "c10a_varint" => crate::core::replay_case(f, c10::case_varint),
